@@ -481,7 +481,7 @@ Lemma add_bonds_mapped_skip h1 m (nidx : loc -> option nat) (D : list loc) :
   forall bs t1 t2,
     (forall b, In b bs -> In (b_a1 b) D /\ In (b_a2 b) D) ->
     (forall b p q, In b bs -> nidx (b_a1 b) = Some p -> nidx (b_a2 b) = Some q -> p <= q /\ (p = q -> b_a1 b = b_a2 b)) ->
-    add_bonds_mapped h1 t1 m bs true = Some t2 ->
+    forall sk, add_bonds_mapped h1 t1 m bs sk = Some t2 ->
     same_but_bonds t1 t2 /\
     exists nb, t_bonds t2 = t_bonds t1 ++ nb /\
                mapM (abs_bond h1) nb =
@@ -491,7 +491,7 @@ Lemma add_bonds_mapped_skip h1 m (nidx : loc -> option nat) (D : list loc) :
                                           end) bs)) /\
                (forall b', In b' nb -> In (b_a1 b') (map snd m) /\ In (b_a2 b') (map snd m) /\ bond_oriented h1 b').
 Proof.
-  intros Hsome Hnone. induction bs as [|b bs IH]; intros t1 t2 HD Hor Hadd.
+  intros Hsome Hnone. induction bs as [|b bs IH]; intros t1 t2 HD Hor sk Hadd.
   - simpl in Hadd. inversion Hadd; subst. split; [repeat split|]. exists []. rewrite app_nil_r.
     split; [reflexivity|]. split; [reflexivity|]. intros ? [].
   - destruct (HD b (or_introl eq_refl)) as [D1 D2].
@@ -506,7 +506,7 @@ Proof.
       unfold add_bond in E. destruct (negb (order_ok (b_order b))); [discriminate|].
       rewrite Gx, Gy in E. simpl in E. inversion E; subst x0; clear E.
       match type of Hadd with add_bonds_mapped _ ?T _ _ _ = _ => set (t1' := T) in * end.
-      destruct (IH t1' t2 HD' Hor' Hadd) as [[S1 [S2 [S3 [S4 S5]]]] [nb [Hnb [Habs Hends]]]].
+      destruct (IH t1' t2 HD' Hor' sk Hadd) as [[S1 [S2 [S3 [S4 S5]]]] [nb [Hnb [Habs Hends]]]].
       split; [repeat split; assumption|].
       set (nb0 := if a_index ax <? a_index ay
                   then {| b_a1 := x; b_a2 := y; b_type := b_type b; b_order := b_order b |}
@@ -527,9 +527,10 @@ Proof.
       * simpl. rewrite Hab1, Habs. reflexivity.
       * intros b' [<-|Hin]; [exact Hab2 | apply Hends; exact Hin].
     + rewrite (Hnone _ D2 N2) in Hadd.
-      assert (Hadd' : add_bonds_mapped h1 t1 m bs true = Some t2) by (destruct (dict_get h1 m (b_a1 b) None); exact Hadd).
-      apply (IH t1 t2 HD' Hor' Hadd').
-    + rewrite (Hnone _ D1 N1) in Hadd. apply (IH t1 t2 HD' Hor' Hadd).
+      assert (Hadd' : add_bonds_mapped h1 t1 m bs sk = Some t2)
+        by (destruct (dict_get h1 m (b_a1 b) None); destruct sk; try discriminate; exact Hadd).
+      apply (IH t1 t2 HD' Hor' sk Hadd').
+    + rewrite (Hnone _ D1 N1) in Hadd. destruct sk; [|discriminate]. apply (IH t1 t2 HD' Hor' true Hadd).
 Qed.
 
 (* ------------------------------------------------------------------ facts about the subset description *)
@@ -835,7 +836,7 @@ Proof.
     assert (a1' = a1) by congruence. assert (a2' = a2) by congruence. subst a1' a2'.
     assert ((b_a1 b, a1) = (b_a2 b, a2)) by (apply (idx_inj (fun x : loc * atom => a_index (snd x)) W); auto).
     congruence. }
-  destruct (add_bonds_mapped_skip h1 (combine olds news) nidx D Hsome Hnone (t_bonds t) t1 t2 HDb Hor Hadd)
+  destruct (add_bonds_mapped_skip h1 (combine olds news) nidx D Hsome Hnone (t_bonds t) t1 t2 HDb Hor true Hadd)
     as [[S1 [S2 [S3 [S4 S5]]]] [nb [Hnb [Hnbabs Hnbends]]]].
   assert (Ht1b : t_bonds t1 = []) by (rewrite Ht1; reflexivity). rewrite Ht1b in Hnb. simpl in Hnb.
   assert (Hbonds_v : somes (map (fun b => match nidx (b_a1 b), nidx (b_a2 b) with
